@@ -105,17 +105,19 @@ def _table(tab):
         cl = (_G['clients'] if full else _G['core_clients'])
         # pass 1: every client alone in a fresh fork;  pass 2: all of them one after another in ONE daemon (a client's class
         # must not depend on the clients classified before it)
-        seq_events, seq_ids = [], []
+        seq_outs = []
+        for order in (list(range(len(cl))), list(range(len(cl) - 1, -1, -1))):       # forward and reverse: every kind of client also follows every other kind
+            seq_events = []
+            for pos, k in enumerate(order):
+                seq_events += client_events(cl[k], 100 + k, pos + 1)
+            res, status, err, ex = srv.trace(seq_events)
+            so = [l for r in res for l in r.out]
+            if status != 'ok' or len(res) != len(seq_events):
+                V.append(('C11.died', 'the daemon ended with %s while classifying %d clients in sequence: %s' % (status, len(cl), (err.strip().splitlines() or ['?'])[0][:160]), []))
+                so = None
+            seq_outs.append(so)
         for k, c in enumerate(cl):
-            seq_events += client_events(c, 100 + k, k + 1)
-            seq_ids.append(100 + k)
-        res, status, err, ex = srv.trace(seq_events)
-        seq_out = [l for r in res for l in r.out]
-        if status != 'ok' or len(res) != len(seq_events):
-            V.append(('C11.died', 'the daemon ended with %s while classifying %d clients in sequence: %s' % (status, len(cl), (err.strip().splitlines() or ['?'])[0][:160]), []))
-            seq_out = None
-        for k, c in enumerate(cl):
-          for cid, out, mode in ((1, None, 'alone'), (100 + k, seq_out, 'after %d other clients' % k)):
+          for cid, out, mode in ((1, None, 'alone'), (100 + k, seq_outs[0], 'as number %d of all clients in sequence' % (k + 1)), (100 + k, seq_outs[1], 'as number %d of all clients in reverse sequence' % (len(cl) - k))):
             lines = client_lines(c)
             if out is None and mode != 'alone':
                 continue
